@@ -115,6 +115,22 @@ def make_jobs(tier, seed):
     groups.append(("small_dfs", {"mode": "dfs", "dfs_budget": 40 if quick else 400}, [fin(c) for c in small]))
     groups.append(("small_dfs_watch", {"mode": "dfs", "dfs_budget": 60 if quick else 600, "max_changes": 1, "max_steps": 60},
                    [fin(dict(c, watch=True), inherit=True) for c in rng.sample(small, 20 if quick else 120)]))
+    # held phases of incremental::run: termination, failures, edits and messages land between check, script and record
+    def gated(c, watch):
+        c = dict(c, watch=watch)
+        builds = [t for t in range(1, c["n"] + 1) if c["kind"][t - 1] == "b"]
+        pts = ["incr_checked", "incr_script_done", "incr_computed"]
+        c["gates"] = [[rng.choice(pts), t] for t in builds if rng.random() < 0.7]
+        return c
+    gs = [c for c in all3 if "b" in c["kind"]]
+    groups.append(("n3_gated", {"mode": "random", "runs_per_config": 2 if quick else 5, "policies": pol, "signals": True},
+                   [fin(gated(c, False), rec=True, fail=True) for c in (rng.sample(gs, 400) if quick else gs)]))
+    groups.append(("n3_gated_watch", {"mode": "random", "runs_per_config": 2 if quick else 5, "max_changes": 2,
+                                      "policies": pol + ["edits_first"], "max_steps": 150},
+                   [fin(gated(c, True), rec=True, inherit=True) for c in (rng.sample(gs, 400) if quick else gs)]))
+    groups.append(("families_gated", {"mode": "random", "runs_per_config": 10 if quick else 100, "policies": pol, "signals": True,
+                                      "max_changes": 2},
+                   [fin(gated(c, k % 2 == 1), rec=True, inherit=True, fail=(k % 4 < 2)) for k, c in enumerate(fams * 2)]))
     big = [gen_configs.random_config(rng, rng.randint(4, 7)) for _ in range(150 if quick else 2000)]
     groups.append(("random_big", {"mode": "random", "runs_per_config": 2 if quick else 4, "policies": pol},
                    [fin(c, inherit=True, rec=True, fail=(k % 3 == 0)) for k, c in enumerate(big)]))
@@ -144,13 +160,13 @@ def run_zv(jobtuple):
     label, name, jp, job = jobtuple
     rc, out = run(["timeout", "-k", "2", "1800", ZV, "engine", jp], timeout=1900)
     summary = None
-    for line in reversed(out.splitlines()):
-        if line.startswith("{"):
-            try:
-                summary = json.loads(line)
-                break
-            except ValueError:
-                pass
+    sp = job["out"] + ".summary.json"
+    if os.path.exists(sp):
+        try:
+            summary = json.load(open(sp))
+        except ValueError:
+            summary = None
+        os.unlink(sp)
     return {"label": label, "name": name, "rc": rc, "summary": summary, "tail": out[-2000:] if summary is None else ""}
 
 
